@@ -436,6 +436,9 @@ func c17Ops(thorough bool) []c17Op {
 	xv := c17XMLValues()
 	var bins [][]byte
 	bins = append(bins, []byte{}, []byte("hello world"), bytes.Repeat([]byte{0xfe, 0x00}, 600))
+	// bodies longer than any buffer a render may copy through, with multi-byte characters across every 4 KiB and
+	// 32 KiB boundary (as text and as bytes)
+	bins = append(bins, []byte("ab"+strings.Repeat("\u65e5\u672c\u8a9e", 4000)), []byte(strings.Repeat("\u00e9", 5000)+"z"), bytes.Repeat([]byte("0123456789abcdef"), 4100), []byte("x"+strings.Repeat("\U0001F600", 9000)))
 	for a := 0; a < 256; a++ {
 		bins = append(bins, []byte{byte(a)})
 	}
@@ -475,7 +478,7 @@ func c17Ops(thorough bool) []c17Op {
 func c17Run(r *core.Run) {
 	r.SetBudget(80 * time.Second)
 	if r.Thorough() {
-		r.SetBudget(10 * time.Minute)
+		r.SetBudget(18 * time.Minute)
 	}
 	var optsets []c17Opts
 	for _, cs := range []string{"", "gbk"} {
